@@ -91,7 +91,7 @@ class WebApp:
             'background_jobs': self._jobs.get_background(),
             'current_job': self._jobs.get_current(),
             'queued_jobs': self._jobs.get_queued(),
-            'lights': TextSnapshot().generate().text,
+            'lights': TextSnapshot().generate(None).text,
             'py_version': platform.python_version()
         }
         return status
@@ -133,5 +133,5 @@ class WebApp:
         output_name = join(
             settings.get_value('script_path', '.'), '__snapshot__.ls')
         out_file = open(output_name, 'w')
-        out_file.write(ScriptSnapshot().generate().text)
+        out_file.write(ScriptSnapshot().generate(None).text)
         out_file.close()
